@@ -131,6 +131,9 @@ func initialClaim(flav int, tx common.Hash) *bridgesync.Claim {
 // another execution (set per tier in main).
 var reincludeMaxFrames = 3
 
+// handlerMaxFrames: trees up to this size are also run through the real log handler (set per tier in main).
+var handlerMaxFrames = 3
+
 var txSeq atomic.Int64
 
 func run(c *mc.Ctx, u mc.Unit) {
@@ -170,6 +173,31 @@ func run(c *mc.Ctx, u mc.Unit) {
 
 	after := detailsOf(claim)
 	tree := describeTree(fs)
+	// the same event and trace through the real ClaimEvent log handler of the event's contract generation (on the
+	// smaller trees: what the handler adds is the parsing of the event log, which does not depend on the tree)
+	if len(p.Shape) <= handlerMaxFrames {
+		hclaim, herr, extra := viaHandler(p.Flavour, tx, traceJSON(fs))
+		if extra != "" {
+			c.Failf("handler/misbehaves", "event %s tree %s:%s", flavNames[p.Flavour], tree, extra)
+		}
+		switch {
+		case (herr == nil) != (err == nil):
+			c.Failf("handler/disagrees-with-the-trace-extraction", "event %s tree %s: the log handler returned %v, the extraction on a prepared claim %v", flavNames[p.Flavour], tree, herr, err)
+		case herr == nil && hclaim != nil:
+			c.Witness("claims_appended_by_the_real_log_handler")
+			if d := detailsOf(hclaim).diff(after); len(d) > 0 {
+				c.Failf("handler/records-other-details", "event %s tree %s: the claim appended by the log handler differs in %v: %s vs %s", flavNames[p.Flavour], tree, d, detailsOf(hclaim).short(), after.short())
+			}
+			want := initialClaim(p.Flavour, tx)
+			want.BlockNum, want.BlockPos = hBlockNum, hLogIndex
+			if p.Flavour != flavLegacy {
+				want.BlockTimestamp = hTimestamp
+			}
+			if got := eventPart(hclaim); got != eventPart(want) {
+				c.Failf("handler/event-fields", "event %s tree %s: the claim appended by the log handler carries {%s}, the event log says {%s}", flavNames[p.Flavour], tree, got, eventPart(want))
+			}
+		}
+	}
 	errText := "<nil>"
 	if err != nil {
 		errText = err.Error()
@@ -310,7 +338,7 @@ func main() {
 			kit.Quiet()
 			abis()
 			if tier == "thorough" {
-				reincludeMaxFrames = 4
+				reincludeMaxFrames, handlerMaxFrames = 4, 4
 			}
 		},
 		Rule: "unit = (ordered tree shape, codec of payload A, codec of payload B and of other-index calls, flavour of the event's " +
